@@ -15,13 +15,34 @@ class obj:
     def __call__(self, name, path):
         from vlib.pyvc.verify import make_param
         world = obj.world
-        parts = self.cls.split('.')
-        mod = world.module('.'.join(parts[:-1]))
-        cref = world.class_ref(mod, mod.top[parts[-1]][-1])
+        if '.<locals>.' in self.cls:
+            from vlib.pyvc.world import find_function
+            target = self.cls
+            parts = target.split('.')
+            for i in range(len(parts) - 1, 0, -1):
+                m = '.'.join(parts[:i])
+                if world.is_repo_module(m):
+                    mod = world.module(m)
+                    node = find_function(mod, '.'.join(parts[i:]))
+                    break
+            cref = world.class_ref(mod, node)
+        else:
+            parts = self.cls.split('.')
+            mod = world.module('.'.join(parts[:-1]))
+            cref = world.class_ref(mod, mod.top[parts[-1]][-1])
         o = ObjVal(cref)
         for k, t in self.fields.items():
             o.fields[k] = make_param('%s.%s' % (name, k), t, path)
         return o
+
+
+def _with(self, name, path, **fields):
+    o = self(name, path)
+    o.fields.update(fields)
+    return o
+
+
+obj._with = _with
 
 
 class tuple_of:
